@@ -998,6 +998,32 @@ def cases_C04(ctx):
         resume = rng.random() < 0.7
         cs.append(case(reader_line(v, q, 1, True, resume, sched, data), "stream:q%d:v%d:%s" % (q, v, "faults" if sched != "-" else "clean"),
                        ("total", {"reader": True, "quit": q}), {"handler": rng.random() < 0.5}))
+    # socket-backed streams, plain and with chunked transfer decoding, over well-formed and *malformed* chunked
+    # bodies: size lines that are not hexadecimal, negative, signed, prefixed, underscored, blank, enormous (more
+    # digits than a machine word holds), missing CRLFs, data after the terminating chunk
+    odd_sizes = [b"ffffffffffffffff", b"8000000000000000", b"7fffffffffffffff", b"10000000000000000", b"f" * 40, b"1" + b"0" * 30,
+                 b"-1", b"-5", b"+3", b"0x5", b"0X10", b"1_0", b" 5 ", b"", b"zz", b"5;ext=1", b"00000000000000000005", b"5\r", b"\t3"]
+    for _ in range(ctx.n(150, 1500)):
+        chunked = rng.random() < 0.75
+        parts = []
+        for _k in range(rng.randint(1, 5)):
+            item = rng.choice([good_frames(ctx, 1)[0], gens.gen_nmea(rng, ctx.t), gens.gen_noise(rng, inert=True), bytes(rng.getrandbits(8) for _ in range(rng.randint(0, 30)))])
+            if chunked:
+                if rng.random() < 0.35:
+                    size = rng.choice(odd_sizes)
+                else:
+                    size = b"%x" % (len(item) + rng.choice([0, 0, 0, 1, -1, 100]) if len(item) else 0)
+                term = rng.choice([b"\r\n", b"\r\n", b"\r\n", b"\n", b"", b"\r"])
+                parts.append(size + rng.choice([b"\r\n", b"\r\n", b"\r\n", b"\n"]) + item + term)
+            else:
+                parts.append(item)
+        if chunked and rng.random() < 0.5:
+            parts.append(b"0\r\n\r\n" + (bytes(rng.getrandbits(8) for _ in range(rng.randint(0, 8))) if rng.random() < 0.3 else b""))
+        data = b"".join(parts)
+        segs = gens.partitions(rng, data, rng.choice(["random", "one", "random"]))
+        q = rng.choice([0, 1, 2])
+        line = "rsock 1 %d 1 1 %d %d %d %s -" % (q, 1 if q == 2 else 0, 1 if chunked else 0, rng.choice([1, 3, 16, 64, 4096]), recv_tok(segs))
+        cs.append(case(line, "sock:%s:q%d" % ("chunked" if chunked else "plain", q), ("total", {"reader": True, "quit": q}), {"handler": rng.random() < 0.5}))
     return cs
 
 
@@ -1303,6 +1329,34 @@ def cases_C15(ctx):
             cs.append(case("msg 1 " + hx(p), "%s:%s" % ("impl" if implemented else ("msmblock" if 1070 <= num <= 1229 else "unk"), "4076" if num == 4076 else "std"),
                            ("identity", {"ident": ident, "num": num, "sub": sub, "implemented": implemented,
                                          "msm_impl": num in msm_impl, "payload": hx(p)})))
+    # unknown-type payloads with *structured* content: a payload that is itself a complete valid frame (message
+    # number 3376 = 0xD30), that ends with the CRC-24Q of its own bytes or of its frame, that is an NMEA sentence or
+    # a UBX frame, every length class: the identity is still the first 12 bits and the stub keeps every byte
+    special = []
+    for inner in good_frames(ctx, ctx.n(10, 80)) + [frame(b""), frame(b"\x00\x00")]:
+        special.append(inner)                                   # a frame as payload
+        if len(inner) + 6 <= 1023:
+            special.append(frame(inner))                        # doubly nested
+    for _ in range(ctx.n(10, 80)):
+        q = gens.unknown_payload(rng, ctx.t, rng.choice([5, 9, 40, 300, 1020]))
+        special.append(q + crc24q_ref(q).to_bytes(3, "big"))    # payload whose own CRC is 0
+        hd = bytes([0xD3, (len(q) + 3) >> 8, (len(q) + 3) & 0xFF])
+        special.append(q + crc24q_ref(hd + q).to_bytes(3, "big"))   # payload whose frame CRC is 0
+    special += [gens.gen_nmea(rng, ctx.t) for _ in range(ctx.n(4, 20))] + [gens.gen_ubx(rng) for _ in range(ctx.n(4, 20))]
+    for p in special:
+        if not (2 <= len(p) <= 1023):
+            continue
+        num = p[0] << 4 | p[1] >> 4
+        sub = None
+        if num == 4076:
+            if len(p) < 3:
+                continue
+            sub = (p[1] & 1) << 7 | p[2] >> 1
+        if (num, sub) in impl_ids:
+            continue
+        ident = str(num) if sub is None else "4076_%03d" % sub
+        cs.append(case("msg 1 " + hx(p), "unk:structured", ("identity", {"ident": ident, "num": num, "sub": sub, "implemented": False,
+                                                                           "msm_impl": False, "payload": hx(p)})))
     return cs
 
 
